@@ -49,6 +49,7 @@ func main() {
 	harness := flag.String("harness", "", "comma separated harness files (package-internal)")
 	zzlib := flag.String("zzlib", "", "zz primitives template")
 	entryRe := flag.String("entry", ".*", "regexp selecting harness entry functions (ZZ_ prefix)")
+	onlyRe := flag.String("only", ".*", "second regexp an entry must match as well (the driver's --entry within a group's own selection)")
 	tier := flag.String("tier", "quick", "quick|thorough")
 	out := flag.String("out", "", "result JSON path")
 	jobs := flag.Int("j", 8, "parallel entries")
@@ -105,9 +106,10 @@ func main() {
 		overlay[filepath.Join(absPkgDir, "zz_verif_lib.go")] = []byte(strings.ReplaceAll(string(src), "PKGNAME", pkgName))
 	}
 	re := regexp.MustCompile("^(" + *entryRe + ")$")
+	re2 := regexp.MustCompile("^(" + *onlyRe + ")$")
 	var sel []*entrySpec
 	for _, s := range specs {
-		if re.MatchString(s.name) {
+		if re.MatchString(s.name) && re2.MatchString(s.name) {
 			if t, ok := s.opts["tier"]; ok && t == "thorough" && *tier != "thorough" {
 				continue
 			}
@@ -333,6 +335,7 @@ func buildConfig(s *entrySpec, tier string) *Config {
 	}
 	geti("unwind", &c.Unwind)
 	geti("maxalloc", &c.MaxAlloc)
+	geti("maxconcretealloc", &c.MaxConcreteAlloc)
 	geti("maxpaths", &c.MaxPaths)
 	geti("maxsteps", &c.MaxSteps)
 	geti("nondetbytes", &c.NondetBytes)
